@@ -21,6 +21,7 @@ from __future__ import annotations
 
 import copy
 import json
+import os
 import re
 import shutil
 import tempfile
@@ -285,14 +286,19 @@ def gen_env(rng, mode, case, plain=True, noliteral=False):
 
 
 def execute_case(case, mode):
-    tmp = tempfile.mkdtemp(prefix="c12_")
+    # scratch directory on tmpfs when there is one: the SQLite files are committed hundreds of times per run and the
+    # cost of fsync on a busy disk (not anything under test) would dominate the run time
+    shm = "/dev/shm" if os.path.isdir("/dev/shm") and os.access("/dev/shm", os.W_OK) else None
+    tmp = tempfile.mkdtemp(prefix="c12_", dir=shm)
     try:
         if mode == "real":
             r = I.RealRunner(case["hist"], case["bodies"], tmp, case_env(case))
         else:
             r = I.FakeRunner(case["hist"], case["bodies"], case_env(case))
         try:
-            return I.run_case(r, tmp, case["cmd"], case["start"], case["target"], case.get("start_spelled"))
+            res = I.run_case(r, tmp, case["cmd"], case["start"], case["target"], case.get("start_spelled"))
+            res["untyped"] = any(o["op"] == "bulk_insert" and o.get("untyped") for o in all_ops(case))
+            return res
         finally:
             r.close()
     finally:
@@ -310,6 +316,9 @@ def judge(res):
         if off.startswith("UnicodeEncodeError") and res.get("output_encoding") not in (None, "utf-8"):
             # the configured output codec cannot represent a literal: the command refuses, no script exists to be judged
             return "skip", "refusal-unencodable", []
+        if off.startswith("CompileError") and res.get("untyped"):
+            # bulk_insert through an ad-hoc table with untyped columns: --sql cannot render the literal and refuses; no script to judge
+            return "skip", "refusal-untyped-literal", []
         return "fail", "offline-error: generating the script raised while the online run succeeded: %s" % off, []
     if on:
         if res.get("exec_error"):
@@ -557,6 +566,18 @@ def battery_cases():
     for enc in ("latin-1", "ascii", "cp1252"):
         out.append(({"shape": "linear", "hist": lin, "bodies": bodies, "cmd": "upgrade", "start": [], "target": "heads",
                      "env": {"output_encoding": enc}}, "real" if enc == "latin-1" else "fake"))
+    # bulk_insert through an untyped ad-hoc sa.table(): --sql refuses (CompileError) or must be faithful
+    ucols = [{"name": n, "type": "Text"} for n in ("id", "Bo dy", "s")]
+    for k, vals in enumerate([
+        [_v("datetime", "2024-03-03T09:30:00"), _v("datetime", "2024-03-03T09:30:00.000123")],
+        [_v("date", "2024-02-29"), _v("bool", True)], [_v("bytes", "00ff27"), _v("float", "1.5")], [_v("str", "x'y"), _v("int", 5)],
+        [_v("null"), _v("null")], [_v("dec", "1.50"), _v("time", "09:30:00")],
+    ]):
+        ub = json.loads(json.dumps(bodies))
+        ub["a1"]["up"].append({"op": "bulk_insert", "table": "no;te", "cols": ucols, "untyped": True, "multiinsert": k % 2 == 0,
+                               "rows": [{"id": _v("int", 50 + k), "Bo dy": vals[0], "s": vals[1]}]})
+        out.append(({"shape": "linear", "hist": lin[:1], "bodies": ub, "cmd": "upgrade", "start": [], "target": "heads", "env": {}},
+                    "real" if k % 2 else "fake"))
     enc_bodies = json.loads(json.dumps(bodies).replace("\\u65e5\\u672c", "\\u00e9\\u00ff"))  # only latin-1 / cp1252 characters
     for enc in ("latin-1", "cp1252"):
         out.append(({"shape": "linear", "hist": lin, "bodies": enc_bodies, "cmd": "upgrade", "start": [], "target": "heads",
